@@ -29,6 +29,9 @@ pub enum ExpErr {
     Rejected,
     ParallelFinalize,
     Unparsable,
+    /// Parent named by the right id but a wrong max cut: must be refused (with whatever error)
+    /// and leave no trace; which error depends on whether the parent heads the open perspective.
+    BadParentCut,
 }
 
 pub struct AddPrediction {
@@ -67,6 +70,7 @@ fn exp_name(e: &ExpErr) -> &'static str {
         ExpErr::Rejected => "Rejected",
         ExpErr::ParallelFinalize => "ParallelFinalize",
         ExpErr::Unparsable => "PolicyRead",
+        ExpErr::BadParentCut => "<any error>",
     }
 }
 
@@ -117,6 +121,15 @@ impl Sim {
                         self.make_cmd(a, c)
                     })
                 }
+                ItemKind::CmdBadCut(c, delta) => {
+                    let p = self.resolve(&it.parent, r, &view, prev).filter(|p| self.g.nodes.contains_key(p));
+                    p.map(|p| {
+                        let mut a = self.addr(&p);
+                        let mc = a.max_cut.get() as i64 + i64::from(if *delta == 0 { 1 } else { *delta });
+                        a.max_cut = MaxCut::new(mc.max(0) as u64 + u64::from(mc.max(0) as u64 == a.max_cut.get()));
+                        self.make_cmd(a, c)
+                    })
+                }
                 ItemKind::Merge(s2) => {
                     let l = self.resolve(&it.parent, r, &view, prev);
                     let rr = self.resolve(s2, r, &view, prev);
@@ -146,7 +159,7 @@ impl Sim {
                 ItemKind::Dup(s) => self.resolve(s, r, &view, prev).map(|i| self.g.node(&i).cmd.clone()),
             };
             if let Some(c) = cmd {
-                if !matches!(it.kind, ItemKind::PolicylessInit) {
+                if !matches!(it.kind, ItemKind::PolicylessInit | ItemKind::CmdBadCut(..)) {
                     self.g.add(&c);
                 }
                 prev = Some(c.id);
@@ -203,6 +216,11 @@ impl Sim {
                 Prior::Single(pa) => {
                     if !view.contains(&pa.id) {
                         p.err = Some(ExpErr::NoSuchParent(pa.id));
+                        return p;
+                    }
+                    if self.g.nodes.get(&pa.id).is_some_and(|n| n.max_cut != pa.max_cut.get()) {
+                        p.err = Some(ExpErr::BadParentCut);
+                        p.rejected_cmd = Some(c.id);
                         return p;
                     }
                     if c.wire().is_none() {
@@ -431,6 +449,9 @@ impl Sim {
                     self.violation("C06", "C06.count", "add-count", format!("{ctx}: add_commands returned {n}, model says {} new commands", pred.count));
                 }
             }
+            (Err(_), Some(ExpErr::BadParentCut)) => {
+                self.stats.bump("bad_parent_cut_refused");
+            }
             (Err(e), Some(x)) if classify(e) == exp_name(x) => {
                 if let (ClientError::NoSuchParent(got), ExpErr::NoSuchParent(want)) = (e, x) {
                     if got != want {
@@ -508,8 +529,7 @@ impl Sim {
             }
             Some(ExpErr::ParallelFinalize) => {
                 self.stats.bump("parallel_finalize_on_merge");
-                // No property defines further use of this transaction (observation O1).
-                self.mark_dead_trx(r, t);
+                // The transaction stays in use: what it accepted before still commits (C06).
             }
             Some(ExpErr::Init) => {
                 self.stats.bump("init_error");
@@ -522,6 +542,14 @@ impl Sim {
             }
             Some(ExpErr::NoSuchParent(_)) => self.stats.bump("no_such_parent"),
             Some(ExpErr::Unparsable) => {}
+            Some(ExpErr::BadParentCut) => {
+                // The rule may or may not have been evaluated before the refusal; either way its
+                // effects must be rolled back and nothing of it may stay (later state checks).
+                self.log.borrow_mut().evals.retain(|e| Some(e.id) != pred.rejected_cmd);
+                if !pred.accepted.is_empty() || with_rep!(&self.reps[r], rep => rep.trxs[t].as_ref().is_some_and(|x| !x.acc.is_empty())) {
+                    self.stats.bump("rejected_with_accepted_in_trx");
+                }
+            }
             None => {}
         }
         {
